@@ -31,7 +31,8 @@ def cfg : Cfg :=
     once := Bpmn.Gen.C10.cancellationOnce.getD true
     refuse := Bpmn.Gen.C10.cancelRefusedWhilePending.getD true
     share := Bpmn.Gen.C10.listenersShareWaitGroup.getD true
-    early := Bpmn.Gen.C10.activeSetBeforeNextAction.getD true }
+    early := Bpmn.Gen.C10.activeSetBeforeNextAction.getD true
+    resetFirst := Bpmn.Gen.C10.activeResetBeforeHandover.getD true }
 
 structure Seen where
   h : Nat := 0
@@ -74,6 +75,17 @@ def blockedBy (host : String) (points : List String) (l : Label) : Bool :=
         (match l with
          | .forward => true
          | _ => false))
+    else if p == "tracer.broadcast" then
+      -- the tracer goroutine is parked: every goroutine of the engine blocks at its next trace send. What can
+      -- still happen: the request goroutine hands its action over and leaves the counter, the answer relay
+      -- receives it and stores `active := 0` if that comes before its trace send (`Cfg.resetFirst`), the harness
+      -- stores `active := 1`
+      (match l with
+       | .respond => host == "sub"
+       | .decrement => false
+       | .clear => false
+       | .harnessActive => false
+       | _ => true)
     else if p == "catch.process_event" then
       (match l with
        | .catchTake _ => true
@@ -201,7 +213,11 @@ def check (params lines : List String) : CaseResult := Id.run do
     | "obs" :: "panic" :: rest =>
       r := { r with specs := ("panic: " ++ " ".intercalate rest) :: r.specs }
     | ["obs", "noquiesce"] => noQuiesce := true
-    | ["obs", "norequest", node] => r := { r with bad := s!"no request of {node} to answer" :: r.bad }
+    | ["obs", "norequest", node] =>
+      -- the host's request may legitimately be absent when the script wants to answer it (the interrupting event
+      -- raced the activation and stranded the token, or the request is late): the answer is skipped, the case is judged
+      if node == hostTask then r := { r with infos := s!"no request of {node} when the script wanted to answer it: answer skipped" :: r.infos }
+      else r := { r with bad := s!"no request of {node} to answer" :: r.bad }
     | ["obs", "notarrived", pt] => r := { r with bad := s!"nothing parked at {pt}" :: r.bad }
     | "obs" :: "final" :: rest =>
       final := some ((kvNat rest "complete").getD 0 == 1, (kvNat rest "hostpending").getD 0 == 1, (kvNat rest "pending").getD 0)
@@ -219,7 +235,8 @@ def check (params lines : List String) : CaseResult := Id.run do
             ss := all
           else
             let q := all.filter (stuck cfg blocked extra)
-            let m := q.filter (fun s => stSeen s == seen)
+            -- while the tracer is parked nothing the engine does is visible: no comparison at these boundaries
+            let m := if held.contains "tracer.broadcast" then q else q.filter (fun s => stSeen s == seen)
             if m.isEmpty then
               r := { r with diffs := s!"before action {opNo} ({" ".intercalate rest}): implementation {seen.show}, model at quiescence {showStates q}" :: r.diffs }
               stop := true
@@ -231,7 +248,10 @@ def check (params lines : List String) : CaseResult := Id.run do
           | ["deliver", "signal", name] => (sigIndex name).map Act.deliver
           | _ => none
         match rest with
-        | ["hold", pt] => held := pt :: held; inHold := true
+        | ["hold", pt] =>
+          held := pt :: held
+          -- a parked tracer delays what is SEEN, not what the activity does: the actions stay in sequence
+          inHold := pt != "tracer.broadcast"
         | ["release", pt] => held := held.filter (· != pt); inHold := false
         | _ => pure ()
         match act with
